@@ -4,6 +4,8 @@
 -/
 import NutsModel.C18.LocalStore
 import NutsModel.C18.RCache
+import NutsModel.C18.DidKey
+import NutsModel.Facts.C18
 
 namespace Nuts.C18
 open Nuts
@@ -459,5 +461,146 @@ theorem run_inv (ops : List COp) (c : RCache) (hi : c.Inv) : (c.run ops).Inv ∧
     obtain ⟨a, b⟩ := step_inv c hi o
     obtain ⟨a2, b2⟩ := ih (c.step o) a
     exact ⟨a2, b2.trans b⟩
+
+/-! ### did:key (vdr/didkey/resolver.go) -/
+
+/-- acceptance is sound w.r.t. the table: an accepted identifier starts with `z`, decodes, carries a codec of the table
+    whose case is not `unsupported`, and passes that case's length / library checks -/
+theorem resolveKeyClass_ok (table : List (Nat × String × KeyAct)) (id : Bytes) (decoded : Option Bytes) (lib : KeyLib)
+    (h : resolveKeyClass table id decoded lib = .ok) :
+    id.head? = some cZ ∧ ∃ mc code key name act, decoded = some mc ∧ readUvarint mc = .ok (code, key) ∧
+      table.find? (fun r => r.1 = code) = some (code, name, act) ∧
+      (match act with
+       | .unsupported => False
+       | .fixedLen n => key.length = n
+       | .ec (some n) => key.length = n ∧ lib.ecOK = true
+       | .ec none => lib.ecOK = true
+       | .rsa => lib.rsa ≠ "parse" ∧ lib.rsa ≠ "small") := by
+  unfold resolveKeyClass at h
+  cases id with
+  | nil => simp at h
+  | cons c cs =>
+    simp only at h
+    split at h
+    · simp at h
+    · rename_i hc
+      have hc' : c = cZ := by simpa using hc
+      cases decoded with
+      | none => simp at h
+      | some mc =>
+        simp only at h
+        cases hr : readUvarint mc with
+        | err e => rw [hr] at h; simp at h
+        | panic p => rw [hr] at h; simp at h
+        | ok v =>
+          obtain ⟨code, key⟩ := v
+          rw [hr] at h
+          simp only at h
+          cases hf : table.find? (fun r => r.1 = code) with
+          | none => rw [hf] at h; simp at h
+          | some row =>
+            obtain ⟨c0, name, act⟩ := row
+            rw [hf] at h
+            simp only at h
+            have hc0 : c0 = code := by
+              have := List.find?_some hf
+              simpa using this
+            subst hc0
+            refine ⟨by simp [hc'], mc, c0, key, name, act, rfl, hr, hf, ?_⟩
+            cases act with
+            | unsupported =>
+              simp at h
+            | fixedLen n =>
+              simp only at h ⊢
+              split at h
+              · simp at h
+              · rename_i hl; simpa using hl
+            | ec el =>
+              cases el with
+              | none =>
+                simp only at h ⊢
+                split at h
+                · assumption
+                · simp at h
+              | some n =>
+                simp only at h ⊢
+                split at h
+                · simp at h
+                · rename_i hl
+                  split at h
+                  · rename_i he; exact ⟨by simpa using hl, he⟩
+                  · simp at h
+            | rsa =>
+              simp only at h ⊢
+              split at h
+              · simp at h
+              · split at h
+                · simp at h
+                · rename_i h1 h2; exact ⟨h1, h2⟩
+
+theorem did_key_accept_sound' (id : Bytes) (decoded : Option Bytes) (lib : KeyLib)
+    (h : resolveKeyClass Facts.C18.didKeyTable id decoded lib = .ok) :
+    id.head? = some cZ ∧ ∃ mc code key, decoded = some mc ∧ readUvarint mc = .ok (code, key) ∧
+      (((code = 236 ∨ code = 237) ∧ key.length = 32) ∨ (code = 4608 ∧ key.length = 33 ∧ lib.ecOK = true) ∨
+       (code = 4609 ∧ key.length = 49 ∧ lib.ecOK = true) ∨ (code = 4610 ∧ lib.ecOK = true) ∨
+       (code = 4613 ∧ lib.rsa ≠ "parse" ∧ lib.rsa ≠ "small")) := by
+  obtain ⟨hz, mc, code, key, name, act, hd, hr, hf, hact⟩ := resolveKeyClass_ok _ id decoded lib h
+  refine ⟨hz, mc, code, key, hd, hr, ?_⟩
+  have hmem := List.mem_of_find?_eq_some hf
+  simp only [Facts.C18.didKeyTable, List.mem_cons, Prod.mk.injEq, List.mem_nil_iff, or_false] at hmem
+  rcases hmem with ⟨h1, _, h3⟩ | ⟨h1, _, h3⟩ | ⟨h1, _, h3⟩ | ⟨h1, _, h3⟩ | ⟨h1, _, h3⟩ | ⟨h1, _, h3⟩ | ⟨h1, _, h3⟩ | ⟨h1, _, h3⟩ <;>
+    subst h1 <;> subst h3 <;> simp_all
+
+theorem readUvarintAux_append (n : Nat) : ∀ (i x s : Nat) (rest : Bytes), i ≤ 9 → n < 2 ^ (64 - 7 * i) →
+    readUvarintAux (appendUvarint n ++ rest) i x s = .ok (x + n * 2 ^ s, rest) := by
+  induction n using Nat.strongRecOn with
+  | _ n ih =>
+    intro i x s rest hi hn
+    unfold appendUvarint
+    by_cases hlt : n < 128
+    · simp only [hlt, dite_true, List.cons_append, List.nil_append]
+      unfold readUvarintAux
+      have h10 : ¬ i = 10 := by omega
+      have h9 : ¬ (i = 9 ∧ n > 1) := by
+        intro ⟨h9, h1⟩
+        subst h9
+        simp at hn
+        omega
+      simp [h10, hlt, h9]
+    · simp only [hlt, dite_false, List.cons_append]
+      unfold readUvarintAux
+      have h10 : ¬ i = 10 := by omega
+      have hb : ¬ (n % 128 + 128 < 128) := by omega
+      have hi8 : i ≤ 8 := by
+        rcases Nat.lt_or_ge i 9 with h | h
+        · omega
+        · have : i = 9 := by omega
+          subst this
+          simp at hn
+          omega
+      simp only [h10, hb, if_false]
+      have hdiv : n / 128 < 2 ^ (64 - 7 * (i + 1)) := by
+        have : 2 ^ (64 - 7 * i) = 2 ^ (64 - 7 * (i + 1)) * 128 := by
+          have : 64 - 7 * i = (64 - 7 * (i + 1)) + 7 := by omega
+          rw [this, Nat.pow_add]
+        rw [this] at hn
+        exact Nat.div_lt_of_lt_mul (by rw [Nat.mul_comm]; exact hn)
+      rw [ih (n / 128) (Nat.div_lt_self (by omega) (by omega)) (i + 1) _ (s + 7) rest (by omega) hdiv]
+      have hmod : (n % 128 + 128) % 128 = n % 128 := by omega
+      rw [hmod]
+      have hn' : n = 128 * (n / 128) + n % 128 := (Nat.div_add_mod n 128).symm
+      have hp : 2 ^ (s + 7) = 2 ^ s * 128 := by rw [Nat.pow_add]
+      rw [hp]
+      congr 2
+      conv => rhs; rw [hn']
+      simp only [Nat.mul_comm, Nat.mul_left_comm, Nat.add_assoc, Nat.add_comm]
+      rw [Nat.mul_add]
+
+/-- round trip of the multicodec prefix: every 64-bit value, canonically encoded, reads back with the rest intact -/
+theorem readUvarint_append (n : Nat) (hn : n < 2 ^ 64) (rest : Bytes) :
+    readUvarint (appendUvarint n ++ rest) = .ok (n, rest) := by
+  unfold readUvarint
+  rw [readUvarintAux_append n 0 0 0 rest (by omega) (by simpa using hn)]
+  simp
 
 end Nuts.C18
